@@ -375,8 +375,8 @@ def oracle_malformed(c, stats):
 PARTS = [
     Part("diag", strategy=diag_case, oracle=oracle_diag, n={"quick": 500, "thorough": 4000}),
     Part("whiten", strategy=lambda: gen_linear.linear_problem(), oracle=oracle_whiten,
-         nontrivial=lambda c: any(b["width"] > 0 for b in c["blocks"]), n={"quick": 2500, "thorough": 20000}),
+         nontrivial=lambda c: any(b["width"] > 0 for b in c["blocks"]), n={"quick": 4000, "thorough": 20000}),
     Part("exclude", strategy=exclude_case, oracle=oracle_exclude,
-         nontrivial=lambda c: any(pl["cov"]["band"] > 0 for pl in c["plan"]), n={"quick": 800, "thorough": 6000}),
+         nontrivial=lambda c: any(pl["cov"]["band"] > 0 for pl in c["plan"]), n={"quick": 2000, "thorough": 6000}),
     Part("malformed", strategy=malformed_case, oracle=oracle_malformed, n={"quick": 600, "thorough": 4000}),
 ]
